@@ -125,7 +125,7 @@ def gen_case(ch: Chooser, tier: str = "quick") -> dict:
     for _ in range(n):
         st = _gen_stmts(ch, tier)
         progs.append(lang.pprogram(st))
-        if ch.chance(1, 2):
+        if ch.chance(2, 3):
             # an edited version of the same program, compiled in the same session
             try:
                 v = lang.pprogram(_variant(ch, st))
@@ -152,7 +152,7 @@ def gen_case(ch: Chooser, tier: str = "quick") -> dict:
                     "plan": gen.gen_plan(ch)})
     for a, b in edits:
         # edit-and-recompile: the two versions back to back, either order, same options
-        if ch.chance(2, 3):
+        if ch.chance(5, 6):
             o = gen.gen_options(ch)
             if ch.chance(1, 2):
                 a, b = b, a
